@@ -112,6 +112,7 @@ pub fn gen_batch_case(check: &str, seed: u64, family: &str, tier: Tier, with_fil
         }
         w.out2 = Some(o2);
     }
+    let _ = &mut w;
     if check == "C06" {
         // C06 reads responses back from the file when they are discarded from memory: newline-delimited JSON only
         if let Some(o) = &mut w.out {
@@ -135,6 +136,12 @@ pub fn gen_batch_case(check: &str, seed: u64, family: &str, tier: Tier, with_fil
         batches[b].push(q);
     }
     batches.retain(|b| !b.is_empty());
+    if batches.len() >= 2 && w.out.is_some() && r.chance(0.4) {
+        // every run() call names its own output policy: the first file, the second, both or none
+        let top = if w.out2.is_some() { 4 } else { 2 };
+        w.per_run_sinks = Some((0..batches.len()).map(|_| r.below(top) as u8).collect());
+        w.policies_at_run_level = false;
+    }
     let mut simcfg = gen_simcfg(&mut r);
     if family == "faults" {
         simcfg.faults = crate::sim::F_SHORT_WRITE | crate::sim::F_EINTR_WRITE;
@@ -281,7 +288,11 @@ pub fn judge(case: &Case, obs: &Obs) -> (Vec<Violation>, BTreeMap<String, u64>, 
         }
         if !case.world.persist {
             // search-stage responses live in the file; the returned vector holds only input-stage errors
-            file_cursor_expected.extend(expected_search_stage.iter().map(|r| canon(&strip_volatile(r))));
+            // (a run whose own output policy names no file discards its search responses altogether)
+            let written = case.world.per_run_sinks.as_ref().and_then(|m| m.get(bi)).map_or(true, |m| m & 1 != 0);
+            if written {
+                file_cursor_expected.extend(expected_search_stage.iter().map(|r| canon(&strip_volatile(r))));
+            }
             let returned_expected: Vec<Value> = {
                 let mut x = vec![];
                 for (qi, _q) in batch.iter().enumerate() {
@@ -332,7 +343,7 @@ impl Check for C06 {
         "C06"
     }
     fn families(&self, _tier: Tier) -> Vec<&'static str> {
-        vec!["schedule", "schedule", "faults", "schedule", "energy", "schedule", "faults"]
+        vec!["schedule", "schedule", "faults", "schedule", "energy", "schedule", "faults", "cli", "schedule"]
     }
     fn default_runs(&self, tier: Tier) -> u64 {
         match tier {
@@ -341,12 +352,21 @@ impl Check for C06 {
         }
     }
     fn gen(&self, seed: u64, family: &str, tier: Tier) -> Case {
+        if family == "cli" {
+            // "one response for every query" through the command-line runner: the query file is read in chunks
+            // (rows that are no query at all, a read that fails once), one run() per chunk, responses in the file
+            use crate::driver::Check;
+            let mut c = super::c19::C19.gen(seed ^ 0xC06, if seed % 2 == 0 { "cli-hard" } else { "cli" }, tier);
+            c.check = "C06".into();
+            c.family = "cli".into();
+            return c;
+        }
         gen_batch_case("C06", seed, family, tier, false)
     }
     fn run(&self, case: &Case, fatal_fd: i32) -> ChildResult {
         let probe = StageProbe { batches: case.batches.clone(), parallelism: case.run_parallelism.unwrap_or(case.world.parallelism), out: Value::Null };
         let obs = execute(case, ExecOpts { reference: true, trace: false, log_clock: false, explore_build: false }, Box::new(probe), fatal_fd);
-        let (violations, mut reach, nontrivial) = judge(case, &obs);
+        let (violations, mut reach, nontrivial) = if case.family == "cli" { super::c19::judge(case, &obs) } else { judge(case, &obs) };
         reach.insert("workers_gt1".into(), (case.workers > 1) as u64);
         world_reach(&case.world, &mut reach);
         reach.insert("preemptions".into(), obs.stats.preemptions);
